@@ -42,7 +42,8 @@ pub fn ref_proj_images(lon: f64, lat: f64, tol: f64) -> Vec<(f64, f64)> {
 }
 
 /// plane tolerance for a position whose longitude magnitude is |lon| (naive range reduction is promised only)
-pub fn plane_tol(lon: f64) -> f64 { 4e-16 * (lon.abs() * 4.0 / PI).max(8.0) + 1e-15 }
+/// (twice the worst excess observed on the pinned tree, so that an equally accurate but differently rounded implementation passes)
+pub fn plane_tol(lon: f64) -> f64 { 8e-16 * (lon.abs() * 4.0 / PI).max(8.0) + 2e-15 }
 
 pub fn deinterleave(h: u64) -> (u32, u32) {
   let mut i = 0u32; let mut j = 0u32;
